@@ -18,6 +18,8 @@ CONSTANTS
   AttOpts = {"none", "c1", "c12", "c0", "c1e4", "c7e5", "c3e5"}
   OkRecomputed = TRUE
   ParentForcesChildDebug = FALSE
+  PreOpts = {}
+  AliasedDefaults = FALSE
 INVARIANT InvStage
 INVARIANT InvRaisedNoVerdict
 INVARIANT InvGradesInUnit
@@ -31,4 +33,5 @@ INVARIANT InvListOrder
 INVARIANT InvAllOrNothing
 INVARIANT InvAloneSameAsInList
 INVARIANT InvChildDebugAsConfigured
+INVARIANT InvFamilyDebugAsConfigured
 INVARIANT InvReturnedWellFormed
